@@ -131,3 +131,30 @@ Proof. intros [ND [FM FC]] Hf C. unfold SchedFail.run_programf. rewrite FM, FC.
     (split; [constructor; [apply (m_keys HI) | apply (m_known HI) | apply (m_cons HI)] | exact X]).
 Qed.
 End FailTop.
+
+(* the two halves put together: a first run in which something fails, then a run with the cause repaired *)
+Section FailThenRetry.
+Variable V : Type.
+Variable F : cmd -> list V -> V.
+Variable Fo : cmd -> list V -> option V.
+Hypothesis refines : forall c vs v, Fo c vs = Some v -> v = F c vs.
+
+Lemma consistent_init P : consistent F P (init V).
+Proof. constructor; cbn; [constructor | intros n v H; discriminate | intros n v c H; discriminate]. Qed.
+
+Theorem fail_then_retry P fuel m' k : accepted P -> length P < fuel ->
+  run_programf Fo fuel P [] = FFailed m' k ->
+  forall t, exists suffix s, run_program F fuel P {| memo := m'; trace := t |} = Ok s /\ trace s = t ++ suffix /\
+    (forall n w, Sched.assoc m' n = Some w -> get s n = Some w) /\
+    (forall n, In n (names P) -> fin s n = true /\
+       count_ev (Enter n) suffix = (if Sched.assoc m' n then 0 else 1) /\ count_ev (Exit n) suffix = (if Sched.assoc m' n then 0 else 1)) /\
+    solves V F P (get s).
+Proof. intros A Hf E t.
+  pose proof (@failed_run_consistent V F Fo refines P fuel (init V) A Hf (consistent_init P)) as S. cbn [memo init] in S. rewrite E in S.
+  destruct (S t) as [C _].
+  destruct (@run_resume V F P fuel {| memo := m'; trace := t |} A Hf C) as (suffix & s & R & T & X & Fin & _ & Sol).
+  exists suffix, s. split; [exact R|]. split; [exact T|]. split; [intros n w H; apply X; exact H|]. split; [|exact Sol].
+  intros n Hn. destruct (Fin n Hn) as (A1 & A2 & A3). split; [exact A1|].
+  unfold Sched.fin, Sched.get in A2, A3. cbn [memo] in A2, A3. destruct (Sched.assoc m' n); split; assumption.
+Qed.
+End FailThenRetry.
